@@ -194,9 +194,16 @@ def step (_ : Unit) (ws : List String) : Unit × String :=
         | .error .outOfFuel => ((), "err fuel")
         | .ok (dmc, chunks) =>
           if e = .dataCost then ((), "ok priced") else
-          match fetchFromDataMapChunk S (storeGet chunks) fuel [] dmc.value with
-          | .ok d => ((), if d = .raw 0 then "ok same" else "ok different")
+          -- the read goes against what the put itself uploaded (a receipt covering every chunk); the public read starts
+          -- from the ADDRESS: the data-map chunk must be among the uploaded records
+          let store := putRecords (fun _ => true) (uploaded e dmc chunks)
+          let start : Except GetErr (Chunk Sym) := if e = .dataPutPublic then storeGet store dmc.address else .ok dmc
+          match start with
           | .error err => ((), s!"ok unreadable:{getErrName err}")
+          | .ok m =>
+            match fetchFromDataMapChunk S (storeGet store) fuel [] m.value with
+            | .ok d => ((), if d = .raw 0 then "ok same" else "ok different")
+            | .error err => ((), s!"ok unreadable:{getErrName err}")
     | _, _, _, _ => ((), "bad-op")
   | _ => ((), "bad-op")
 
@@ -209,8 +216,24 @@ def searchCandidates : List String :=
      (24000, [(60, 6000), (15, 1500), (4, 430), (3, 330), (3, 330)])]
   let entryCands : List String :=
     [(Entry.dataPut, "private"), (Entry.dataPutPublic, "public"), (Entry.dataCost, "cost")].flatMap fun (e, name) =>
-      if e.passesBytesUnchanged then [] else
-        [0, 1, 2].map fun len => s!"put max=? len={len} fill=c97 entry={name} tab=?"
+      (if e.passesBytesUnchanged then [] else
+        [0, 1, 2].map fun len => s!"put max=? len={len} fill=c97 entry={name} tab=?") ++
+      -- an upload that leaves out what the read needs: found on any accepted input, single- and multi-level
+      (if e = .dataCost then [] else [100, 2000, 6000].filterMap fun len =>
+        let tab : List (Nat × Nat) := if len = 100 then [(3, 330)] else if len = 2000 then [(5, 520), (3, 330), (3, 330)]
+          else [(15, 1500), (4, 430), (3, 330), (3, 330)]
+        let S := symSE (packEnv len tab)
+        match putEntry S 400 fuel id e (.raw 0) with
+        | .ok (dmc, chunks) =>
+          let store := putRecords (fun _ => true) (uploaded e dmc chunks)
+          let start : Except GetErr (Chunk Sym) := if e = .dataPutPublic then storeGet store dmc.address else .ok dmc
+          match start with
+          | .error _ => some s!"put max=? len={len} fill=r1 entry={name} tab=?"
+          | .ok m =>
+            match fetchFromDataMapChunk S (storeGet store) fuel [] m.value with
+            | .ok d => if d = .raw 0 then none else some s!"put max=? len={len} fill=r1 entry={name} tab=?"
+            | .error _ => some s!"put max=? len={len} fill=r1 entry={name} tab=?"
+        | .error _ => none)
   entryCands ++ tabs.filterMap fun (len, tab) =>
     let S := symSE (packEnv len tab)
     match encrypt S 400 fuel (.raw 0) with
